@@ -57,6 +57,10 @@ def gen_desc(rnd):
     seps = [rnd.choice([' ', ' ', ' ', '  ', '\t', '   ', ' ', ' ', '\u00a0']) for _ in words]
     body = ''.join(w + s for w, s in zip(words, seps)).strip()
     d = rnd.choice(PREFIX) + body + rnd.choice(SUFFIX)
+    if rnd.random() < .04:
+        # a wire / SEPA reference: one very long unbroken token (several hundred characters) among the first words
+        ref = 'WIRE/OUT-' + ';'.join('%s=%s' % (k, 'X7Q9' * rnd.randint(6, 14)) for k in ('BNF', 'OBI00', 'REF', 'IBAN', 'BIC'))
+        d = rnd.choice(['ONLINE TRANSFER ' + ref, ref + ' PAYMENT', 'PAYMENT TO ' + ref + ' ' + body])
     return d.strip()
 
 
@@ -318,6 +322,36 @@ def judge_other_stdout_encodings(rec, tmp):
                 rec.violation('printed-suggestion-matches-no-description:stdout-encoding', f'stdout encoding {enc}: discover printed the rule [{name}] match: {match} - '
                               f'{"it matches none of the uncategorised descriptions " + repr(descs) if not hit else hit}', case)
                 break
+    # ... and the rules discover suggests (taken from its ASCII-safe JSON output) are written to merchants.rules and read back by a process whose locale is not
+    # UTF-8: the rules file is UTF-8 whatever the locale, so the list of uncategorised descriptions empties
+    lenv = dict(os.environ, PYTHONPATH=core.SRC, PYTHONDONTWRITEBYTECODE='1', NO_COLOR='1', LC_ALL='C', LANG='C', PYTHONUTF8='0', PYTHONCOERCECLOCALE='0', PYTHONIOENCODING='utf-8')
+    lenv.pop('TALLY_CONFIG', None)
+    b = make_budget(tmp, 7701, descs + ['WIRE/OUT-' + 'X7Q9' * 80 + ' PAYMENT'])
+    p1 = subprocess.run([core.PY, '-m', 'tally', 'discover', os.path.join(b, 'config'), '--format', 'json', '-n', '0'], cwd=b, env=lenv, capture_output=True, text=True, encoding='utf-8',
+                        stdin=subprocess.DEVNULL, timeout=180)
+    try:
+        items = json.loads(p1.stdout[p1.stdout.index('['):])
+    except Exception:
+        items = None
+    rec.count('discover_loops_under_a_non_utf8_locale')
+    if not items:
+        rec.violation('discover-fails-under-a-non-utf8-locale', f'LC_ALL=C: discover --format json exits {p1.returncode}: {(p1.stderr or p1.stdout)[-200:]!r}', case)
+    else:
+        with open(os.path.join(b, 'config', 'merchants.rules'), 'a', encoding='utf-8') as f:
+            f.write('\n\n'.join(i['suggested_rule'].replace('category: CATEGORY', 'category: Cat').replace('subcategory: SUBCATEGORY', 'subcategory: Sub') for i in items) + '\n')
+        p2 = subprocess.run([core.PY, '-m', 'tally', 'discover', os.path.join(b, 'config'), '--format', 'json', '-n', '0'], cwd=b, env=lenv, capture_output=True, text=True, encoding='utf-8',
+                            stdin=subprocess.DEVNULL, timeout=180)
+        left = None
+        if 'No unknown transactions found' in p2.stdout:
+            left = []
+        else:
+            try:
+                left = [i['raw_description'] for i in json.loads(p2.stdout[p2.stdout.index('['):])]
+            except Exception:
+                pass
+        if left is None or left:
+            rec.violation('discover-loop-does-not-shrink:non-utf8-locale', f'LC_ALL=C: {len(items)} suggestions appended to merchants.rules; the next discover '
+                          f'{"fails: " + repr((p2.stderr or p2.stdout)[-200:]) if left is None else "still lists " + repr(left[:3])}', case)
     shutil.rmtree(b, ignore_errors=True)
 
 
